@@ -1,6 +1,7 @@
 """One module per property: run(ctx) enumerates obligations from the source."""
 import os
+import re
 
 ALL = sorted(
-    f[:-3] for f in os.listdir(os.path.dirname(__file__)) if f.startswith("C") and f.endswith(".py")
+    f[:-3] for f in os.listdir(os.path.dirname(__file__)) if re.fullmatch(r"C\d{2,3}\.py", f)
 )
